@@ -283,9 +283,12 @@ def arith(op, a, b):
     elif op == 'mod':
         r = _fmod(x, y)
     elif op == 'idiv':
+        bad = x != x or y != y or x in (math.inf, -math.inf)
         if y == 0:
+            if bad:
+                raise XErr('FOAR0001', 'FOAR0002')      # both rules of F&O 4.2.5 apply
             raise XErr('FOAR0001')
-        if x != x or y != y or x in (math.inf, -math.inf):
+        if bad:
             raise XErr('FOAR0002')
         if y in (math.inf, -math.inf):
             return V('integer', 0)
